@@ -15,7 +15,8 @@ property's "the run always terminates" / "terminates without raising").  Each `w
                the convergence argument needs; the loop must be preceded on every path by a guard that raises when one of them is <= 0;
   delegated    progress is the subject of another rule (the model's outer loop: C07.b; the profile deepening loop: C16's deepening rule).
 
-A loop that fits none is reported.  The tables below are keyed by function and by the names the test reads, not by position or text."""
+A loop that fits none is reported.  The tables below are keyed by function (and, for the delegated loops, by the attributes the test reads:
+API-level names), never by position, text or the spelling of a local."""
 from __future__ import annotations
 import ast
 from typing import Dict, List, Optional, Set, Tuple
@@ -28,9 +29,9 @@ DELEGATED = {
     ("run_model", ("model_is_finished",)): "the model's outer loop: progress of the clock is C07.b (16 abstract clock states)",
     ("read_model_parameters", ("Zmax", "zSoil")): "the profile deepening loop: progress is C16's deepening rule (zSoil re-derived from the lengthened table)",
 }
-# (function name, names read by the loop test) -> parameters whose positivity the convergence argument needs
+# function name -> parameters (formals) whose positivity the convergence argument of its counter-less search loop needs
 CONVERGENCE = {
-    ("calculate_HIGC", ("HIest", "crop_HI0")): {
+    "calculate_HIGC": {
         "needs_positive": ["crop_YldFormCD", "crop_HI0", "crop_HIini"],
         "why": "HIest rises towards HI0 as the coefficient grows only if the yield-formation period is longer than 0 days; with 0 days HIest stays "
                "at its initial value and the search never ends",
@@ -38,9 +39,9 @@ CONVERGENCE = {
 }
 
 
-# (function name, names read by the loop test) -> why a value recomputed from a stepped counter is enough (monotone and unbounded in the counter)
+# function name -> why a value recomputed from a stepped counter is enough for its loop (monotone and unbounded in the counter)
 DERIVED = {
-    ("prepare_gdd", ("first_planting_date", "sim_end_date")): "the planting date of year y (month/day fixed) moves on by a year with every step of the year counter",
+    "prepare_gdd": "the planting date of year y (month/day fixed) moves on by a year with every step of the year counter",
 }
 
 
@@ -179,9 +180,9 @@ def classify(prog, fi, loop: ast.While):
             kinds = [_step_of(s, var.id) for s in sts]
             if any(k is None or k[0] == "other" for k in kinds):
                 # a derived variable: recomputed each cycle from a stepped counter
-                d = _derived(flow, loop, var.id, sts) if key in DERIVED else None
+                d = _derived(flow, loop, var.id, sts) if fi.name in DERIVED else None
                 if d and o in (ast.Lt, ast.LtE):
-                    return "derived", f"`{norm(c)}`: {var.id} is recomputed every cycle from the counter {d}, which is stepped on every cycle ({DERIVED[key]})"
+                    return "derived", f"`{norm(c)}`: {var.id} is recomputed every cycle from the counter {d}, which is stepped on every cycle ({DERIVED[fi.name]})"
                 why.append(f"`{norm(c)}`: {var.id} is also assigned something that is not a constant step")
                 continue
             steps = [k[1] for k in kinds if k[0] == "step"]
@@ -248,8 +249,8 @@ def classify(prog, fi, loop: ast.While):
                 continue
             return "flag", f"{flag} is set on every path from `{norm(e)}`; every other cycle steps {cnt} by +1"
         why.append(f"flag loop on {flag}: no counter test that leads to `{flag} = True`")
-    if key in CONVERGENCE:
-        return "convergence", CONVERGENCE[key]
+    if fi.name in CONVERGENCE:
+        return "convergence", CONVERGENCE[fi.name]
     return None, "; ".join(why) or "the test has no conjunct that compares a stepped local with an invariant bound"
 
 
